@@ -27,7 +27,7 @@ def gen(rng):
 def execute(p, chooser):
     from more_executors import Executors
     from more_executors.futures import f_return
-    obs = {"params": p, "rec": [], "racers": [], "after": None, "alive_at_return": None, "second": None, "returned": False}
+    obs = {"params": p, "rec": [], "racers": [], "after": None, "alive_at_return": None, "second": None, "returned": False, "after_other": []}
 
     def main():
         det.emit("case", None, repr(p))
@@ -111,6 +111,18 @@ def execute(p, chooser):
                 obs["after"] = "returned"
             except Exception as e:
                 obs["after"] = (type(e).__name__, str(e))
+            # the other ways of submitting to an executor refuse as well (submit_retry / submit_timeout)
+            for (k, o) in objs:
+                for meth, args in (("submit_retry", (None, lambda: 4)), ("submit_timeout", (5, lambda: 4))):
+                    if hasattr(o, meth):
+                        if meth == "submit_retry":
+                            from more_executors.retry import RetryPolicy
+                            args = (RetryPolicy(), lambda: 4)
+                        try:
+                            getattr(o, meth)(*args)
+                            obs["after_other"].append((k, meth, "returned"))
+                        except Exception as e:
+                            obs["after_other"].append((k, meth, type(e).__name__, str(e)))
             if p["second_shutdown"]:
                 n0 = len(obs["rec"])
                 top.shutdown(p["wait"], **p["kwargs"])
@@ -157,6 +169,10 @@ def monitor(r, obs):
     n = len(p["layers"]) + 1
     if obs["after"] != ("RuntimeError", MSG):
         out.append({"what": "submit() after shutdown() returned: %r" % (obs["after"],), "detail": str(p), "pattern": "shutdown:submit-after"})
+    for rec in obs.get("after_other", []):
+        if rec[2:] != ("RuntimeError", MSG) and not p.get("co_shutters"):
+            out.append({"what": "%s() on the %s layer after shutdown() returned: %r" % (rec[1], rec[0], rec[2:]), "detail": str(p),
+                        "pattern": "shutdown:submit-after:" + rec[1]})
     for (k, kind, msg) in obs["racers"]:
         if kind != "returned" and (kind, msg) != ("RuntimeError", MSG):
             out.append({"what": "racing submit() raised %s: %s" % (kind, msg), "detail": str(p), "pattern": "shutdown:racer"})
